@@ -10,10 +10,11 @@
        pre      = operations that bring init to the state that is saved
        settings = (cycles filename hash extra), extra = (0) None | (1 ((key value) …))
        post     = the post-load history
-     answer = (doc trace_original loaded)
+     answer = (doc trace_original loaded doc-of-a-second-save-of-the-same-object)
        doc    = ((key (0 value) | (1 ((n value) …))) …) in key order
        trace  = ((value snapshot) …) as in the history entry
-       loaded = (0 exn-code) | (1 (cycles filename hash) snapshot trace doc-of-a-save-of-the-loaded-model) *)
+       loaded = (0 exn-code)
+              | (1 (cycles filename hash) snapshot trace doc-of-a-save-of-the-loaded-model keys-of-extra_data) *)
 From Coq Require Import ZArith List Bool String Extraction ExtrOcamlBasic.
 From PV Require Import Lib.Py Extract.Sx Model.Ops Model.Graph Model.GraphExpr Model.Persist.
 From PV Require Import Extract.C01.
@@ -95,9 +96,12 @@ Definition persist_entry (args : list sx) : sx :=
                        SL [SZ 1; SL [enc_val (pm_cycles M'); enc_val (pm_filename M'); enc_val (pm_hash M')];
                            snapshot (pm_wb M') (pm_state M');
                            SL (run_trace (pm_wb M') (pm_sem cse rs M') (pm_state M') post);
-                           enc_doc (fst (to_text G M'))]
+                           enc_doc (fst (to_text G M'));
+                           SL (map (fun kv => SL (map SZ (fst kv)))
+                                   (match pm_extra M' with Some d => d | None => [] end))]
                    | Raise e => SL [SZ 0; SZ (exn_code e)]
-                   end ]
+                   end;
+                   enc_doc (fst (to_text G (snd (to_text G M)))) ]
           | _, _, _, _ => bad_args
           end
       | _, _, _, _, _, _ => bad_args
